@@ -159,6 +159,9 @@ def to_text(ln, l1, l2, texts, rnd):
         cells = [esc_cell(texts.get(p, "cell")) for p in ps]
         w = ln.get("cellpad", 1)
         body = u"|".join(u" " * w + x + u" " * w for x in cells)
+        if a == "tail":          # the last cell is what is left of a trailing comment: "| a | b | # x"
+            body = u"|".join(u" " * w + x + u" " * w for x in cells[:-1])
+            return pad + u"|" + body + u"| # x", 0
         return pad + u"|" + body + (u"|" if a == "ok" else u""), 0
     if c == "Doc":
         return pad + QUOTES[a], 0
